@@ -28,10 +28,10 @@ RULE = ("entries whose field keys are sequences over the pool a A b B ab Ab c (e
         "every case in in-place and in copy mode; non-trivial = the entry has >= 2 fields (order: the order has >= 2 items); "
         "distinct = distinct spec")
 BOUND = {"quick": "order: all 400 orders of length <= 3 x 2; alpha, norm: all 19608 key sequences of length <= 5 (copy mode for length <= 3 "
-                  "and a sample) ; custom: all 114 orders of length <= 2 x 2 x all 400 key sequences of length <= 3 + 6000 random "
+                  "and a sample) ; custom: all duplicate-free orders of length <= 2 (57 x 2 modes) x all 400 key sequences of length <= 3 + 6000 random "
                   "(orders <= 3, 4..5 fields)",
-         "thorough": "order: same; alpha, norm: all key sequences of length <= 6 + 20000 random of length 7..8; custom: all 800 orders of "
-                     "length <= 3 x all 400 key sequences of length <= 3 + 100000 random (orders <= 3, 4..8 fields)"}
+         "thorough": "order: same; alpha, norm: all key sequences of length <= 6 + 20000 random of length 7..8; custom: all duplicate-free orders of "
+                     "length <= 3 (400 x 2 modes) x all 400 key sequences of length <= 3 + 100000 random (orders <= 3, 4..8 fields)"}
 
 
 # ------------------------------------------------------------------------------------------------------------------ inputs
